@@ -159,3 +159,45 @@ func verifC16Expiry() {
 		vReach("miss")
 	}
 }
+
+// verifC16Repeat: within the TTL a repeated Resolve is answered from the cache
+// and yields the same result as the first one (the cached record sets are not
+// modified by the first lookup).
+func verifC16Repeat() {
+	clock := int64(2_000_000)
+	timeNow = func() time.Time { return time.Unix(clock, 0) }
+	queries := 0
+	p1, p2 := vUint16(), vUint16()
+	vAssume(p1 <= 2 && p2 <= 2)
+	dns.VerifHook_DoH = func(ctx context.Context, msg *dns.Message, URL string) (*dns.Message, error) {
+		queries++
+		d, _ := dns.DecodeMessage(msg.Bytes())
+		q := d.Question[0]
+		m := &dns.Message{QR: 1}
+		switch q.Type {
+		case 65:
+			if q.Name == "o.example" {
+				m.Answer = append(m.Answer,
+					dns.RR{Name: q.Name, Type: 65, Class: 1, TTL: 600, Data: dns.HTTPS{Priority: p1, Target: "a.example", ECH: []byte{1}}},
+					dns.RR{Name: q.Name, Type: 65, Class: 1, TTL: 600, Data: dns.HTTPS{Priority: p2, Target: "b.example", ECH: []byte{2}}})
+			}
+		case 1:
+			m.Answer = append(m.Answer, dns.RR{Name: q.Name, Type: 1, Class: 1, TTL: 600, Data: net.IP{10, 0, 0, 1}})
+		}
+		return m, nil
+	}
+	r := &Resolver{cache: newResolverCache()}
+	r1, err1 := r.Resolve(context.Background(), "o.example")
+	n1 := queries
+	clock += 10
+	r2, err2 := r.Resolve(context.Background(), "o.example")
+	vAssert((err1 == nil) == (err2 == nil), "same outcome")
+	vAssert(queries == n1, "within the TTL the repeated lookup is served from the cache")
+	vAssert(len(r1.HTTPS) == len(r2.HTTPS) && len(r1.Address) == len(r2.Address), "same result sizes")
+	for i := range r1.HTTPS {
+		if i < len(r2.HTTPS) {
+			vAssert(r1.HTTPS[i].Priority == r2.HTTPS[i].Priority && r1.HTTPS[i].Target == r2.HTTPS[i].Target, "same HTTPS records in the same order")
+		}
+	}
+	vReach("repeat")
+}
